@@ -211,6 +211,21 @@ fn run_conn(addr: SocketAddr, conn: &str, end: &str) -> String {
         Err(e) => return format!("connect-error:{:?}", e.kind()),
     };
     stream.set_nodelay(true).unwrap();
+    if end == "eofslow" {
+        // a slow reader with a SMALL receive buffer: the window it offers stays tiny, so the server's send queue fills
+        // after a few hundred kilobytes and its writes come back short / would block
+        use std::os::fd::AsRawFd;
+        let sz: libc::c_int = 65536;
+        unsafe {
+            libc::setsockopt(
+                stream.as_raw_fd(),
+                libc::SOL_SOCKET,
+                libc::SO_RCVBUF,
+                &sz as *const _ as *const libc::c_void,
+                std::mem::size_of::<libc::c_int>() as libc::socklen_t,
+            );
+        }
+    }
     let mut rd = stream.try_clone().unwrap();
     let closed_at = Arc::new(Mutex::new(None::<Instant>));
     let closed_at2 = closed_at.clone();
@@ -220,7 +235,7 @@ fn run_conn(addr: SocketAddr, conn: &str, end: &str) -> String {
     let reader = std::thread::spawn(move || {
         if slow {
             let _ = go_rx.recv();
-            std::thread::sleep(Duration::from_millis(150));
+            std::thread::sleep(Duration::from_millis(400));
         }
         let mut got = Vec::new();
         let mut buf = vec![0u8; 70000];
